@@ -299,7 +299,49 @@ def nan_aware_cases(T):
             cs.append(nan_case('%s(%d operands)<%s>' % (fn_, n, tg), k, sc, spec))
     k = K('fclamp_%s' % tg, [Par('o', sc, False), Par('x', sc), Par('y', sc), Par('z', sc)], '*o = fclamp(*x, *y, *z);', CFG)
     cs.append(nan_case('fclamp<%s>' % tg, k, sc, lambda: {0: f2(f2(S.lane('x', sc, 0), S.lane('y', sc, 0), False), S.lane('z', sc, 0), True)}))
+    # the vector overloads (separate code in ext/vector_common.inl): vector / vector and vector / scalar operand forms, every lane with the same definition
+    for L_ in (1, 2, 3, 4):
+        vt = G.vec(L_, T)
+        forms = []
+        for fn_, mn in (('fmin', True), ('fmax', False)):
+            forms.append((fn_ + '(v,v)', [('x', vt), ('y', vt)], '%s(*x, *y)' % fn_, lambda es, mn=mn: f2(es[0], es[1], mn)))
+            forms.append((fn_ + '(v,s)', [('x', vt), ('y', sc)], '%s(*x, *y)' % fn_, lambda es, mn=mn: f2(es[0], es[1], mn)))
+            forms.append((fn_ + '(v,v,v)', [('x', vt), ('y', vt), ('z', vt)], '%s(*x, *y, *z)' % fn_, lambda es, mn=mn: f2(f2(es[0], es[1], mn), es[2], mn)))
+            forms.append((fn_ + '(v,v,v,v)', [('x', vt), ('y', vt), ('z', vt), ('u', vt)], '%s(*x, *y, *z, *u)' % fn_, lambda es, mn=mn: f2(f2(f2(es[0], es[1], mn), es[2], mn), es[3], mn)))
+        forms.append(('fclamp(v,v,v)', [('x', vt), ('y', vt), ('z', vt)], 'fclamp(*x, *y, *z)', lambda es: f2(f2(es[0], es[1], False), es[2], True)))
+        forms.append(('fclamp(v,s,s)', [('x', vt), ('y', sc), ('z', sc)], 'fclamp(*x, *y, *z)', lambda es: f2(f2(es[0], es[1], False), es[2], True)))
+        for fname, ps, call, sp in forms:
+            kname = ''.join(ch if ch.isalnum() else '_' for ch in fname)
+            k = K('nanv_%s_%d%s' % (kname, L_, tg), [Par('o', vt, False)] + [Par(n_, t_) for n_, t_ in ps], '*o = %s;' % call, CFG)
+            cs.append(nan_vec_case('%s<vec%d,%s>' % (fname, L_, tg), k, vt, ps, sp))
     return cs
+
+
+def nan_vec_case(name, k, vt, ps, sp):
+    def judge(ctx):
+        err = ctx.compile_error(k)
+        if err:
+            return [R.ob(name, 'existence', R.REFUTED, 'cannot be instantiated: ' + err, kernel=k.source())]
+        it = ctx.fn(k)
+        lanes = L.out_lanes(ctx, k, vt)
+        res = []
+        for i in sorted(lanes):
+            es = [S.lane(n_, t_, i if t_.kind == 'vec' else 0) for n_, t_ in ps]
+            want = sp(es).t
+            t = lanes[i]
+            oid = '%s[%d]' % (name, i)
+            if not (O.in_fragment(t) and O.in_fragment(want)):
+                res.append(R.ob(oid, 'nan_aware', R.UNDECIDED, 'not a comparison-only term: %s' % tm.show(t, 4)))
+                continue
+            r = O.equivalent(t, want, nan=True)
+            if r is True:
+                res.append(R.ob(oid, 'nan_aware', R.PROVED, 'min / max of the non-NaN operands of this lane in every ordering x NaN case', kernel=k.source()))
+            elif r:
+                res.append(R.ob(oid, 'nan_aware', R.REFUTED, 'in the case [%s] the lane is %s, the NaN-aware definition %s' % (r[1], r[2], r[3]), where=R.where_of(it, t), kernel=k.source()))
+            else:
+                res.append(R.ob(oid, 'nan_aware', R.UNDECIDED, tm.show(t, 4)))
+        return res
+    return R.Case(name, [k], judge)
 
 
 def nan_case(name, k, sc, specfn):
